@@ -1,0 +1,54 @@
+//go:build verif
+
+package cty
+
+// Contracts on value constructors (C06, C02; relied upon by the decoders' C17 obligations).
+// Comment-only file.
+//
+//@ func cty.NumberIntVal
+//@   tags C06
+//@   ensures[C06] shape: (and (is_number_ty (vty result)) (plain result) ((_ is box<*math/big.Float>) (cty.Value.v result)) (not (= (unbox<*math/big.Float> (cty.Value.v result)) 0)))
+//
+//@ func cty.NumberUIntVal
+//@   tags C06
+//@   ensures[C06] shape: (and (is_number_ty (vty result)) (plain result) ((_ is box<*math/big.Float>) (cty.Value.v result)) (not (= (unbox<*math/big.Float> (cty.Value.v result)) 0)))
+//
+//@ func cty.NumberFloatVal
+//@   tags C06
+//@   may_panic
+//@   ensures[C06] shape: (and (is_number_ty (vty result)) (plain result) ((_ is box<*math/big.Float>) (cty.Value.v result)) (not (= (unbox<*math/big.Float> (cty.Value.v result)) 0)))
+//
+//@ func cty.ParseNumberVal
+//@   tags C06
+//@   ensures[C06] shape: (=> (= result.1 nil.Any) (and (is_number_ty (vty result.0)) (plain result.0) ((_ is box<*math/big.Float>) (cty.Value.v result.0)) (not (= (unbox<*math/big.Float> (cty.Value.v result.0)) 0))))
+//
+//@ func cty.StringVal
+//@   tags C06
+//@   ensures[C06] shape: (and (is_string_ty (vty result)) (plain result) (= (cty.Value.v result) (box<string> (nfc v))))
+//
+//@ func cty.ListVal
+//@   tags C06
+//@   requires (> (Slice.len vals) 0)
+//@   requires (vals_typed vals (Slice.len vals))
+//@   requires (vals_consistent vals (Slice.len vals))
+//@   let n (Slice.len vals)
+//@   ensures[C06] shape: (and (is_list_ty (vty result)) (wf_ty (vty result)) (plain result) (is_seq_payload result) (= (Slice.len (pl_seq result)) n))
+//@   ensures[C06] elemty: (or (and (is_dyn_ty (elem_ty (vty result))) (vals_all_dyn vals n)) (and (not (is_dyn_ty (elem_ty (vty result)))) (vals_some_ty vals n (elem_ty (vty result)))))
+//@   loop 1 invariant (or (and (is_dyn_ty elementType) (vals_all_dyn vals $i)) (and (not (is_dyn_ty elementType)) (vals_some_ty vals $i elementType)))
+//
+//@ func cty.CanListVal
+//@   tags C06
+//@   requires (vals_typed vals (Slice.len vals))
+//@   ensures[C06] sound: (=> result (vals_consistent vals (Slice.len vals)))
+//@   loop 1 invariant (or (and (is_dyn_ty elementType) (vals_all_dyn vals $i)) (and (not (is_dyn_ty elementType)) (vals_some_ty vals $i elementType)))
+//@   loop 1 invariant (forall ((j Int)) (! (=> (and (trig j) (<= 0 j) (< j $i) (not (is_dyn_ty (vty (vals_rel vals j))))) (ty_eq elementType (vty (vals_rel vals j)))) :pattern ((trig j))))
+//
+//@ func cty.TupleVal
+//@   tags C06
+//@   requires (vals_typed elems (Slice.len elems))
+//@   let n (Slice.len elems)
+//@   ensures[C06] shape: (and (is_tuple_ty (vty result)) (plain result) (is_seq_payload result) (= (Slice.len (pl_seq result)) n) (= (tuple_len (vty result)) n))
+//@   ensures[C06] elemtys: (forall ((j Int)) (! (=> (and (trig j) (<= 0 j) (< j n)) (= (tuple_at (vty result) j) (vty (vals_rel elems j)))) :pattern ((trig j))))
+//@   ensures[C06] wfty: (wf_ty (vty result))
+//@   loop 1 invariant (forall ((j Int)) (! (=> (and (trig j) (<= 0 j) (< j $i)) (= (select (select $H<Arr<cty.Type>> (Slice.ptr elemTypes)) j) (vty (vals_rel elems j)))) :pattern ((trig j))))
+//@   loop 1 invariant (and (< (Slice.ptr elemTypes) 0) (= (Slice.off elemTypes) 0) (= (Slice.len elemTypes) (Slice.len elems)))
